@@ -75,8 +75,10 @@ def _proj_nodes(nodes: Dict[int, Any], ids: set) -> List[Dict[str, int]]:
 class C03(Prop):
     id = "C03"
     trace_module = "Trace_CallStack"
-    mc = [{"module": "MC_CallStack", "quick": "MC_CallStack_new_quick.cfg", "thorough": "MC_CallStack_new.cfg", "actions": ["Step", "Finish"]},
-          {"module": "MC_CallStack", "quick": "MC_CallStack_old_quick.cfg", "thorough": "MC_CallStack_old.cfg", "actions": ["Step", "Finish"]}]
+    # the order both builders use since fix 55deb4b (a sort key): all families incl. the shapes on which the pairwise comparators fail
+    mc = [{"module": "MC_CallStack", "quick": "MC_CallStack_key_quick.cfg", "thorough": "MC_CallStack_key.cfg", "actions": ["Step", "Finish"]},
+          # the pairwise comparators are still in the code (is_events_sorted re-checks neighbours with _less_than): their model on the shapes where they are consistent
+          {"module": "MC_CallStack", "quick": "MC_CallStack_new_quick.cfg", "thorough": "MC_CallStack_new_quick.cfg", "actions": ["Step", "Finish"]}]
     n_cases = {"quick": 400, "thorough": 5000}
     rule = ("half of the cases are dense random laminar families (4-14 spans on a grid 0..5-9: shared starts/ends, identical spans, touching "
             "siblings, zero-duration events everywhere, ids shuffled), half are program-simulated traces with 1-3 host threads; each thread's "
@@ -169,7 +171,38 @@ class C03(Prop):
             real_old = -1 if c < 0 else 1 if c > 0 else 0
             if real_new != bool(p["lessNew"]) or real_old != int(p["cmpOld"]):
                 drift.append((x, y, real_new, p["lessNew"], real_old, p["cmpOld"]))
-        ctx.replayed += len(pairs)
+        # ---- the key order: every family of the small model through sort_events and through both builders; the endpoint order and the
+        # tree must be the model's
+        fams, _ = tlc.enumerate_cases("MC_CallStack", "MC_CallStack_key_emit.cfg", timeout=1800)
+        import pandas as pd
+        from hta.common.trace import get_cpu_gpu_correlation
+        from hta.common.trace_symbol_table import TraceSymbolTable
+        kdrift = []
+        rr = random.Random(ctx.seed)
+        for f in fams:
+            evs = []
+            for sp in f["fam"]:
+                evs.append([sp["id"], sp["dur"], -1, sp["ts"]])
+                evs.append([sp["id"], sp["dur"], 1, sp["ts"] + sp["dur"]])
+            rr.shuffle(evs)
+            arr = np.array(evs)
+            new_cs.sort_events(arr)
+            got = [[int(r[0]), "open" if r[2] == -1 else "close"] for r in arr.tolist()]
+            want = [[o["id"], o["kind"]] for o in f["order"]]
+            df = pd.DataFrame({"index": [sp["id"] for sp in f["fam"]], "ts": [sp["ts"] for sp in f["fam"]], "dur": [sp["dur"] for sp in f["fam"]],
+                               "stream": -1, "index_correlation": -1, "pid": 1, "tid": 1})
+            df = df.sample(frac=1.0, random_state=rr.randrange(10 ** 6)).set_index("index", drop=False)
+            old_par = {int(k): int(v.parent) for k, v in old_cs.CallStackGraph(df.copy(), old_cs.CallStackIdentity(0, 1, 1)).get_nodes().items() if int(k) > 0}
+            want_par = {k + 1: (p if p > 0 else -1) for k, p in enumerate(f["par"])}
+            old_par = {k: (p if p > 0 else -1) for k, p in old_par.items()}
+            if got != want or old_par != want_par:
+                kdrift.append((f["fam"], got, want, old_par, want_par))
+        ctx.replayed += len(pairs) + len(fams)
+        ctx.extra_cov["key_order_families_replayed"] = len(fams)
+        ctx.extra_cov["key_order_drift"] = len(kdrift)
+        if kdrift:
+            print(f"SPEC-DRIFT C03: sort_events / the old builder disagree with CallStack.tla's key order on {len(kdrift)} of {len(fams)} families; first: {kdrift[0]}")
+            ctx.notes.append(f"SPEC-DRIFT: key order differs between CallStack.tla and the code on {len(kdrift)} families")
         ctx.extra_cov["comparator_pairs_replayed"] = len(pairs)
         ctx.extra_cov["comparator_transcription_drift"] = len(drift)
         if drift:
